@@ -2,7 +2,7 @@
 """Seeded changes: validate (tests still pass, demonstration fails with / passes without), store under
 /verif/seeded/<id>/, and run checks against them.
 
-  seeded.py import <out-dir> <property> <n>     validate /tmp/seed/out-Cxx/patch<n>.diff and store it as seeded/<property>-<n>
+  seeded.py import <out-dir> <property> <n> [<as>]  validate /tmp/seed/out-Cxx/patch<n>.diff and store it as seeded/<property>-<n>
   seeded.py run <id> [checks...]                apply seeded/<id>/patch.diff to /repo, run the checks, revert
   seeded.py matrix [ids...]                     run every registered check against each seeded change
 """
@@ -51,11 +51,11 @@ def validate(patch, demo):
         shutil.rmtree(SCRATCH, ignore_errors=True)
 
 
-def cmd_import(outdir, prop, n):
+def cmd_import(outdir, prop, n, dest=None):
     patch = os.path.join(outdir, "patch%s.diff" % n)
     demo = os.path.join(outdir, "demo%s.py" % n)
     v = validate(patch, demo)
-    sid = "%s-%s" % (prop, n)
+    sid = "%s-%s" % (prop, dest or n)
     print(sid, json.dumps({k: v[k] for k in v if k != "demo_output"}))
     if not v.get("ok"):
         return 1
@@ -132,7 +132,7 @@ def cmd_run(sid, checks):
 def main():
     a = sys.argv[1:]
     if a[0] == "import":
-        return cmd_import(a[1], a[2], a[3])
+        return cmd_import(*a[1:5])
     if a[0] == "run":
         return cmd_run(a[1], a[2:])
     if a[0] == "matrix":
